@@ -371,7 +371,7 @@ pub(super) fn interp(ops: &Ops) -> Outs {
                                 u64::from(s.id) as i128,
                                 s.error_code.into_inner() as i128,
                             ]),
-                            Ok(_) => frames.push([8, 0, 0]),
+                            Ok(_) => {}
                             Err(_) => frames.push([9, 0, 0]),
                         }
                     }
